@@ -41,6 +41,14 @@ func OracleC08(rc *sim.RunCtx, w *world.World, m *Model, pre *Model, step int, t
 		}
 		return true
 	}
+	for key := range winners {
+		if takeover(key) {
+			rc.Probe("choice-takeover")
+			if strings.Contains(key, "[") {
+				rc.Probe("choice-takeover-in-list")
+			}
+		}
+	}
 	// cases present on the device per choice instance
 	present := map[string]map[string][]string{}
 	for k, l := range w.Dev.State {
@@ -125,14 +133,41 @@ func runC08(rc *sim.RunCtx) {
 		h.AdvanceClock()
 		h.Step(s)
 	}
+	// "namely the case holding the highest-precedence contribution": what the merge-model oracle reports about a node
+	// inside a choice member (the winning case is missing on the device or carries a wrong value) is judged here
+	out := rc.Out()
+	for i := range out.Items {
+		it := &out.Items[i]
+		if it.Prop != "C01" || (it.Clause != "C01.missing" && it.Clause != "C01.wrong-value") {
+			continue
+		}
+		p := mustPath(h.W, it.Fields["path"])
+		inChoice, inList := false, false
+		for j := range p {
+			if node := h.W.SI.Node(p[:j+1]); node != nil && node.Choice != "" {
+				inChoice = true
+				if strings.Contains(p[:j].String(), "[") {
+					inList = true
+				}
+			}
+		}
+		if !inChoice {
+			continue
+		}
+		it.Prop = "C08"
+		it.Clause = "C08.winning-case-" + strings.TrimPrefix(it.Clause, "C01.")
+		it.Fields["in_list"] = fmt.Sprint(inList)
+		// the value is owed by an intent outside the transaction (its case took over, or a shadowing value went away)
+		it.Fields["ruler_in_tx"] = fmt.Sprint(it.Fields["ruler_edit"] != "")
+	}
 }
 
 func init() {
 	Register(&sim.Check{
 		ID: "C08", Level: "exploration", Run: runC08,
-		Rule: "C01 histories over the choice profile of vsim: a top-level choice with a two-leaf case, a container case and a list case, a choice inside list entries with a nested choice, plus non-member siblings whose names start with a member's name (alphabet, betamax); several owners with distinct priorities populate different cases, are changed, re-prioritised and removed in any order, 1-3 per transaction. After every accepted transaction: per choice instance at most one case on the device and it is the case of the highest-precedence live contribution (choice-aware merge model). Non-trivial = some choice instance has live contributions in >=2 cases; distinct = C01 signature.",
+		Rule: "C01 histories over the choice profile of vsim: a top-level choice with a two-leaf case, a container case and a list case, a choice inside list entries with a nested choice, plus non-member siblings whose names start with a member's name (alphabet, betamax); several owners with distinct priorities populate different cases, are changed, re-prioritised and removed in any order, 1-3 per transaction. After every accepted transaction: per choice instance at most one case on the device and it is the case of the highest-precedence live contribution (choice-aware merge model); what the merge-model oracle reports about nodes inside a choice member (winning case missing / wrong value, e.g. after a takeover by the case of an intent outside the transaction) is judged as C08.winning-case-*. Non-trivial = some choice instance has live contributions in >=2 cases; distinct = C01 signature.",
 		Real: realCore, Stub: stubCore,
-		RequiredProbes: []string{"contended-choice", "ruler-changed"},
+		RequiredProbes: []string{"contended-choice", "ruler-changed", "choice-takeover"},
 		QuickSeconds:   30, ThoroughSeconds: 480,
 	})
 }
